@@ -12,6 +12,8 @@ thread_local! {
     static LEDGER: RefCell<Vec<String>> = RefCell::new(Vec::new());
     static NEXT: RefCell<usize> = RefCell::new(0);
     static PLAN: RefCell<(Option<usize>, u8)> = RefCell::new((None, 0));
+    /// the element whose destructor panics (after recording its drop), if any
+    static DROP_PANIC: RefCell<Option<usize>> = RefCell::new(None);
 }
 
 pub struct Tracked {
@@ -51,7 +53,38 @@ impl BorshDeserialize for Tracked {
 impl Drop for Tracked {
     fn drop(&mut self) {
         LEDGER.with(|l| l.borrow_mut().push(format!("d{}", self.id)));
+        if DROP_PANIC.with(|d| *d.borrow()) == Some(self.id) {
+            DROP_PANIC.with(|d| *d.borrow_mut() = None);
+            panic!("planned panic in a destructor");
+        }
     }
+}
+
+/// the decoder fails at position `k` (error return) and, while the built prefix is released, the
+/// destructor of element `j < k` panics: the other elements are still owed their drop (slice drop
+/// glue goes on after an unwinding destructor).  Oracle only - the model has no failing destructors.
+fn run_drop_panic<const N: usize>(k: usize, j: usize, out: &mut Sink) {
+    LEDGER.with(|l| l.borrow_mut().clear());
+    NEXT.with(|n| *n.borrow_mut() = 0);
+    PLAN.with(|p| *p.borrow_mut() = (Some(k), 0));
+    DROP_PANIC.with(|d| *d.borrow_mut() = Some(j));
+    let data = vec![7u8; N + 2];
+    let case = format!("guard {} {} error [destructor of element {} panics]", N, k, j);
+    out.announce(&case);
+    let _ = catch_unwind(AssertUnwindSafe(|| {
+        let mut s = &data[..];
+        <[Tracked; N]>::deserialize_reader(&mut s).map(|_| ())
+    }));
+    DROP_PANIC.with(|d| *d.borrow_mut() = None);
+    let evs: Vec<String> = LEDGER.with(|l| l.borrow().clone());
+    let constructed = evs.iter().filter(|e| e.starts_with('c')).count();
+    let mut ok = constructed == k;
+    for id in 0..constructed {
+        if evs.iter().filter(|e| **e == format!("d{}", id)).count() != 1 {
+            ok = false;
+        }
+    }
+    out.oracle("C15", ok, &case, &format!("constructed {}: {}", constructed, evs.join(" ")));
 }
 
 fn run<const N: usize>(fail_at: Option<usize>, mode: u8, out: &mut Sink) {
@@ -184,6 +217,13 @@ pub fn guard_workload(out: &mut Sink) {
             run_zst::<N>(Some(k), 1, out);
         }
     }
+    run_drop_panic::<4>(2, 0, out);
+    run_drop_panic::<4>(3, 0, out);
+    run_drop_panic::<4>(3, 1, out);
+    run_drop_panic::<5>(4, 2, out);
+    run_drop_panic::<9>(8, 0, out);
+    run_drop_panic::<9>(8, 7, out);
+    run_drop_panic::<17>(16, 5, out);
     zst::<0>(out);
     zst::<1>(out);
     zst::<2>(out);
